@@ -85,7 +85,11 @@ def run_mutant(args):
         d = make_scratch(repo)
         apply_edits(d, m["edits"])
         try:
-            viol, errs = analyse_tree(d, witnesses=bool(m.get("witness")) or any(x.startswith("TY-") for x in m.get("expect", [])))
+            want_w = bool(m.get("witness")) or any(x.startswith("TY-") for x in m.get("expect", []))
+            rules = None
+            if m["kind"] == "break" and m.get("only_expected", True):
+                rules = [x for x in m["expect"] if x in registry.RULES]
+            viol, errs = analyse_tree(d, rules=rules, witnesses=want_w or m["kind"] == "benign")
         except AnalysisError as e:
             return {"id": m["id"], "status": "analysis-error", "detail": str(e)[:400], "wall_s": time.time() - t0}
         return {"id": m["id"], "violations": viol, "errors": errs, "wall_s": round(time.time() - t0, 1)}
